@@ -18,9 +18,9 @@ RULE = ('case = one proof object (ids, citations, stated sequents, nesting, plac
 ASSUMPTIONS = ['citation resolution is observed through Proof.find_item; if the checker stops calling it the run is inconclusive',
                'reference yield of assume / implies_intr / implies_elim / identity substitution computed on shadows',
                'propositional validity by truth table (vf.holmodel)']
-REQUIRED = {'quick': {'accepted': 500, 'rejected': 500, 'L1_citations_checked': 300, 'L2_yields_checked': 300,
+REQUIRED = {'quick': {'hist_rechecks': 800, 'hist_recheck:True/fresh:True': 200, 'accepted': 500, 'rejected': 500, 'L1_citations_checked': 300, 'L2_yields_checked': 300,
                       'ext_cases': 100, 'ext_admitted_as_proved': 5, 'gaps_reports_checked': 100, 'exhaustive_nested_done': 1},
-            'thorough': {'accepted': 5000, 'rejected': 5000, 'L1_citations_checked': 3000, 'L2_yields_checked': 3000,
+            'thorough': {'hist_rechecks': 30000, 'hist_recheck:True/fresh:True': 8000, 'accepted': 5000, 'rejected': 5000, 'L1_citations_checked': 3000, 'L2_yields_checked': 3000,
                          'ext_cases': 1000, 'ext_admitted_as_proved': 50, 'gaps_reports_checked': 1000, 'exhaustive_nested_done': 1}}
 SHARD_TIMEOUT = {'quick': 600, 'thorough': 7200}
 
@@ -47,11 +47,13 @@ def shards(tier, seed):
         return ([{'kind': 'exh', 'n': 1, 'part': 0, 'parts': 1}, {'kind': 'exh', 'n': 2, 'part': 0, 'parts': 1}, {'kind': 'nested'}] +
                 [{'kind': 'exh3_sample', 'count': 2500, 'i': i} for i in range(6)] +
                 [{'kind': 'random', 'count': 700, 'i': i} for i in range(6)] +
-                [{'kind': 'ext', 'count': 400, 'i': i} for i in range(2)])
+                [{'kind': 'ext', 'count': 400, 'i': i} for i in range(2)] +
+                [{'kind': 'hist', 'count': 1500, 'i': i} for i in range(2)])
     return ([{'kind': 'exh', 'n': 1, 'part': 0, 'parts': 1}, {'kind': 'exh', 'n': 2, 'part': 0, 'parts': 1}, {'kind': 'nested'}] +
             [{'kind': 'exh', 'n': 3, 'part': p, 'parts': 32} for p in range(32)] +
             [{'kind': 'random', 'count': 15000, 'i': i} for i in range(12)] +
-            [{'kind': 'ext', 'count': 6000, 'i': i} for i in range(4)])
+            [{'kind': 'ext', 'count': 6000, 'i': i} for i in range(4)] +
+            [{'kind': 'hist', 'count': 20000, 'i': i} for i in range(4)])
 
 
 # ------------------------------------------------------------------ building proofs from specs
@@ -457,6 +459,114 @@ def do_spec(ctx, spec, kind, sample=False):
     ctx.case(key, nontrivial=is_nontrivial(spec), sample={'spec': spec, 'accepted_some_mode': took} if sample else None)
 
 
+def sensible_spec(rng):
+    """a small proof that is usually accepted (no id / citation perturbations)"""
+    forms = ['A', 'B', 'A->B', 'B->A']
+    items = []
+    n = rng.randint(3, 7)
+    for i in range(n):
+        vis = [it['id'] for it in items]
+        r = rng.random()
+        if r < 0.45 or len(vis) < 2:
+            sp = {'rule': 'assume', 'arg': rng.choice(forms)}
+        elif r < 0.75:
+            imps = [it for it in items if it['rule'] == 'assume' and '->' in it['arg']]
+            if imps:
+                f = rng.choice(imps)
+                a = f['arg'].split('->')[0]
+                prem = [it for it in items if it['rule'] == 'assume' and it['arg'] == a]
+                sp = {'rule': 'implies_elim', 'prevs': [f['id'], (rng.choice(prem) if prem else rng.choice(items))['id']]}
+            else:
+                sp = {'rule': 'implies_elim', 'prevs': [rng.choice(vis), rng.choice(vis)]}
+        elif r < 0.9:
+            sp = {'rule': 'implies_intr', 'arg': rng.choice(forms), 'prevs': [rng.choice(vis)]}
+        else:
+            sp = {'rule': 'substitution', 'prevs': [rng.choice(vis)]}
+        sp['id'] = (i,)
+        items.append(sp)
+    return items
+
+
+def hist_case(ctx, rng, fixed=None):
+    """W-HIST: a proof OBJECT is checked, edited the way the proof-state editor edits it (a line replaced by a new
+    item, or citations / arguments of a line changed in place) and checked again.  The second verdict must be the
+    verdict a fresh object with the same content gets, and the log of the second run goes through the oracles."""
+    from kernel import theory
+    from kernel.report import ProofReport
+    import copy as _copy
+    spec = sensible_spec(rng) if rng.random() < 0.7 else rand_spec(rng)
+    mode = {'no_gaps': rng.random() < 0.5}
+    if fixed is not None:
+        spec, mode = fixed['spec'], fixed['mode']
+    prf = mk_proof(spec)
+    try:
+        theory.thy.check_proof(prf, ProofReport(), no_gaps=mode['no_gaps'])
+    except Exception:
+        ctx.count('hist_first_check_rejected')
+        return
+    ctx.count('hist_first_check_accepted')
+    # the edit
+    spec2 = _copy.deepcopy(spec)
+    top = [i for i, it in enumerate(spec2) if it['rule'] in ('assume', 'implies_elim', 'implies_intr')]
+    if not top:
+        return
+    k = rng.choice(top)
+    it = spec2[k]
+    forms = ['A', 'B', 'A->B', 'B->A']
+    how = rng.choice(['replace-item', 'replace-item', 'args-in-place', 'prevs-in-place'])
+    if fixed is not None:
+        spec2, k, how = fixed['edited'], fixed['index'], fixed['how']
+        it = spec2[k]
+    elif it['rule'] == 'assume' or (how == 'args-in-place' and it['rule'] == 'implies_intr'):
+        it['arg'] = rng.choice([f for f in forms if f != it.get('arg')])
+        if how == 'prevs-in-place':
+            how = 'args-in-place'
+    elif it.get('prevs'):
+        j = rng.randrange(len(it['prevs']))
+        others = [x['id'] for x in spec2[:k] if x['id'] != it['prevs'][j]]
+        if not others:
+            return
+        it['prevs'][j] = rng.choice(others)
+        if how == 'args-in-place':
+            how = 'prevs-in-place'
+    if how == 'replace-item':
+        prf.items[k] = mk_item(it)                    # as ProofState.set_line does
+    elif how == 'args-in-place':
+        prf.items[k].args = mk_item(it).args
+    else:
+        prf.items[k].prevs = [tuple(p) for p in it['prevs']]
+    ctx.count('hist_edits:' + how)
+    # second check of the edited object, under the monitors
+    rpt = ProofReport()
+    LOG.events, LOG.stack, LOG.find_calls = [], [], 0
+    LOG.active = True
+    try:
+        res = theory.thy.check_proof(prf, rpt, no_gaps=mode['no_gaps'])
+        again = True
+    except Exception:
+        again = False
+    finally:
+        LOG.active = False
+    events = LOG.events
+    try:
+        theory.thy.check_proof(mk_proof(spec2), ProofReport(), no_gaps=mode['no_gaps'])
+        fresh = True
+    except Exception:
+        fresh = False
+    ctx.count('hist_rechecks')
+    ctx.count('hist_recheck:%s/fresh:%s' % (again, fresh))
+    ctx.case(('hist', repr(spec), k, how, repr(it)), nontrivial=True,
+             sample={'spec': spec, 'edited_item': it, 'how': how, 'recheck_accepts': again, 'fresh_accepts': fresh} if rng.random() < 0.002 else None)
+    wit = {'kind': 'hist', 'spec': spec, 'edited': spec2, 'index': k, 'how': how, 'mode': mode}
+    if again and not fresh:
+        ctx.violation('history:recheck-of-an-edited-proof-accepts-what-a-fresh-check-rejects',
+                      'after a first full check, item %s was edited (%s) to %s; check_proof accepts the edited object but '
+                      'rejects a fresh proof with the same content [no_gaps=%s]' % (it['id'], how, it, mode['no_gaps']), wit)
+    elif again:
+        for mech, desc in judge(ctx, spec2, mode, res, rpt, events, 0):
+            ctx.violation('history:' + mech, desc + ' (second check of an edited proof object, edit %s)' % how, wit)
+
+
 def ext_case(ctx, rng):
     """(stated theorem, proof) through checked_extend on a copy of the theory"""
     from kernel import theory, extension
@@ -547,6 +657,10 @@ def run_shard(ctx, spec):
     if 'replay' in spec:
         w = spec['replay']['witness']
         sp = fix_spec(w['spec'])
+        if w['kind'] == 'hist':
+            hist_case(ctx, ctx.rng, fixed={'spec': sp, 'edited': fix_spec(w['edited']), 'index': w['index'], 'how': w['how'], 'mode': w['mode']})
+            ctx.case('replay', sample=sp)
+            return
         if w['kind'] == 'ext':
             ctx.note('replay of ext cases: re-run the ext shard with the same seed')
         for mode in ({'no_gaps': True}, {'no_gaps': False}):
@@ -578,6 +692,9 @@ def run_shard(ctx, spec):
     elif kind == 'ext':
         for k in range(spec['count']):
             ext_case(ctx, rng)
+    elif kind == 'hist':
+        for k in range(spec['count']):
+            hist_case(ctx, rng)
 
 
 def fix_spec(sp):
